@@ -336,27 +336,64 @@ def _isinstance_tables(fn) -> List[str]:
 
 
 def _r2(chk, repo, conj):
-    scp = repo.method(conj, "_set_conjugatepair")[1]
-    g = CFG(scp)
-    assigns = [n for n in g.nodes if isinstance(n.ast, ast.Assign) and path_of(n.ast.targets[0]) == "self._conjugatepair"]
-    problems = []
-    for n in assigns:
-        pair = call_name(n.ast.value)
-        fam = [_norm(t.ast.args[1]) for t, lab in g.guards_of(n) if lab == "T" and isinstance(t.ast, ast.Call) and call_name(t.ast) == "isinstance"
-               and _norm(t.ast.args[0]) == "self.target.likelihood.distribution"]
-        pci = repo.cls(f"{EXP}:{pair}")
-        vfam = _isinstance_tables(repo.method(pci, "validate_target")[1])
-        if not fam or fam[0] not in vfam:
-            problems.append(f"{pair} is selected for {fam} but validates {vfam}")
-        if _norm(n.ast.value) != f"{pair}(self.target)":
-            problems.append(f"{pair} is not constructed on the sampler's target")
-        if not any(_norm(t.ast) == "isinstance(self.target.prior,Gamma)" and lab == "T" for t, lab in g.guards_of(n)):
-            problems.append(f"{pair} is selected without requiring a Gamma prior")
-    if len(assigns) != 2:
-        problems.append(f"expected two conjugate pairs, found {len(assigns)}")
-    if g.falls_off_end and g.exit_reachable_avoiding(lambda n: n in assigns):
-        problems.append("an unsupported pair does not raise")
-    chk.add("C10-R2", f"{conj.qual}._set_conjugatepair", not problems, site(repo, scp), "selection table matches each pair's validation; else raise", "; ".join(problems), scp)
+    """Pair selection as a decision table. Atoms: `isinstance(<likelihood distribution>, F)` for every family tuple F tested (locals replaced by their
+    definitions) and `isinstance(<prior>, Gamma)`. For every valuation the path through _set_conjugatepair is followed to the store of
+    self._conjugatepair (or a raise); a stored pair P must be constructed on self.target, under a Gamma prior, for a family that P.validate_target
+    itself accepts; anything else must raise."""
+    import itertools
+    from .common import canon_fn
+    from ..pathtable import walk, _Sub, NONNULL_NAMES
+    from ..pattern import norm as pn
+    from ..flow import Expander
+    from ..canon import clone as _clone
+    scp_src = repo.method(conj, "_set_conjugatepair")[1]
+    scp = canon_fn(repo, conj, scp_src, 1)
+    NONNULL_NAMES.update(repo.mod(EXP).classes.keys())
+    ex = Expander(scp)
+    DIST, PRIOR = "self.target.likelihood.distribution", "self.target.prior"
+    fams, gamma_atom = [], pn(f"isinstance({PRIOR},Gamma)")
+    for n in ast.walk(scp):
+        if isinstance(n, ast.Call) and call_name(n) == "isinstance" and len(n.args) == 2:
+            node = ex.cfg.node_of(n) if hasattr(ex.cfg, "node_of") else None
+            try:
+                subj = pn(ex.expand(n.args[0], ex.cfg.stmt_node_containing(n)))
+            except Exception:
+                subj = pn(n.args[0])
+            if subj == DIST and pn(n.args[1]) not in fams:
+                fams.append(pn(n.args[1]))
+    problems, undec, seen_pairs = [], [], set()
+    if len(fams) < 2:
+        raise AnchorError("Conjugate._set_conjugatepair: family tests on the likelihood distribution not found")
+    atoms = [pn(f"isinstance({DIST},{f})") for f in fams] + [gamma_atom]
+    for bits in itertools.product((True, False), repeat=len(atoms)):
+        val = dict(zip(atoms, bits))
+        kind, res = walk(scp, val, pn, stop_pred=lambda a_: isinstance(a_, ast.Assign) and path_of(a_.targets[0]) == "self._conjugatepair")
+        case = ", ".join(f"{'is' if b_ else 'not'} {f}" for f, b_ in zip(fams, bits[:-1])) + f", prior {'is' if bits[-1] else 'not'} Gamma"
+        if kind in ("unknown", "loop"):
+            undec.append(f"[{case}] {res if isinstance(res, str) else kind}")
+        elif kind == "stop":
+            v = _Sub(res[0]).visit(_clone(res[1].value))
+            pair = call_name(v) if isinstance(v, ast.Call) else None
+            if pair is None or pair not in repo.mod(EXP).classes:
+                problems.append(f"[{case}] stores `{pn(v)}`, not a conjugate pair")
+                continue
+            seen_pairs.add(pair)
+            if pn(v) != f"{pair}(self.target)":
+                problems.append(f"{pair} is not constructed on the sampler's target")
+            if not bits[-1]:
+                problems.append(f"{pair} is selected without requiring a Gamma prior")
+            vfam = _isinstance_tables(repo.method(repo.cls(f"{EXP}:{pair}"), "validate_target")[1])
+            true_f = [f for f, b_ in zip(fams, bits[:-1]) if b_]
+            if not any(f in vfam for f in true_f):
+                problems.append(f"{pair} is selected for {true_f or 'no tested family'} but validates {vfam}")
+        elif kind != "raise":
+            problems.append(f"[{case}] an unsupported pair does not raise ({kind})")
+    if len(seen_pairs) != 2:
+        problems.append(f"expected two conjugate pairs, found {sorted(seen_pairs)}")
+    problems = sorted(set(problems))
+    chk.decide("C10-R2", f"{conj.qual}._set_conjugatepair", not problems and not undec, not undec, site(repo, scp_src),
+               "selection table matches each pair's validation; else raise", "; ".join(problems or undec), scp_src)
+    scp = scp_src
     ens = [n for n in scp.body if isinstance(n, ast.Expr) and _norm(n) == "self._ensure_target_is_posterior()"]
     chk.add("C10-R2", f"{conj.qual}._set_conjugatepair/posterior-first", bool(ens) and scp.body.index(ens[0]) <= 1, site(repo, scp),
             "posterior check precedes the dispatch", "dispatch reads target.likelihood before the posterior check", scp)
